@@ -888,7 +888,7 @@ impl Engine for ReadEnum {
             }
         }
         t.only = None;
-        Verdict::Pass { digest: d.finish(), sig: fnv(&[t.image as u8, t.table[0], t.table[1], t.table[2], t.table[3]]), nontrivial: !payload.is_empty() }
+        Verdict::Pass { digest: d.finish(), sig: fnv(&[t.image as u8, t.table[0], t.table[1], t.table[2], t.table[3], (t.cuts / 32) as u8]), nontrivial: !payload.is_empty() }
     }
     fn shrink(&self, _t: &EnumTrace) -> Vec<EnumTrace> {
         vec![]
